@@ -220,6 +220,7 @@ theorem winK_static_eq {w : WinK} {wv wv' : WinV} (h : w.γ wv) (hs : w.static? 
     | cl m => simp [WinK.static?] at hs
     | rt n => simp [WinK.static?] at hs
     | rtv => simp [WinK.static?] at hs
+    | bnd cap => simp [WinK.static?] at hs
 
 theorem swShapeK_sound {sh d : ShapeK} {s t : Shape} {w : WinK} {wv : WinV} {ax : AxisK} {axis : Option Nat}
     (hsh : sh.γ s) (hw : w.γ wv) (hax : ax.γ1 axis) (href : refSlidingWindow wv axis s = some t)
